@@ -38,6 +38,9 @@ func (p c18Params) String() string {
 	if p.Bulk == "bufburst" {
 		return fmt.Sprintf("N=%d U=%d Ksr=%d bulk=bufburst packets=%d Qbuf=%d hb=%v ticks=%d", p.N, p.U, p.Ksr, p.M, p.Q, p.HB, p.Ticks)
 	}
+	if p.Kevt == 0 {
+		return fmt.Sprintf("N=%d U=%d Kevt=512(real) Ksr=128(real) bulk=%s batch=%d hb=%v ticks=%d", p.N, p.U, p.Bulk, p.M, p.HB, p.Ticks)
+	}
 	return fmt.Sprintf("N=%d U=%d Kevt=%d Ksr=%d bulk=%s batch=%d hb=%v ticks=%d", p.N, p.U, p.Kevt, p.Ksr, p.Bulk, p.M, p.HB, p.Ticks)
 }
 
@@ -64,7 +67,7 @@ func c18Body(p c18Params) func(x *vsched.Exec) {
 				w.send(0, smf.Est(w.nextSeq(0), w.peerIP(0), true, uint64(0x10+i), w.peerIP(0), estOps(p.U)...))
 			}
 		})
-		for _, m := range w.replies()[0] {
+		for _, m := range w.repliesWait(0, p.N+1)[0] {
 			if m.Type == smf.MEstRsp {
 				if up, _, ok := m.FSEID(); ok {
 					seids = append(seids, up)
@@ -75,9 +78,15 @@ func c18Body(p c18Params) func(x *vsched.Exec) {
 			x.V["infra"] = fmt.Sprintf("set-up established %d of %d sessions", len(seids), p.N)
 			return
 		}
-		vsched.SetKeyFn(func() string { return w.v.Summary() + w.g.VPerio().VSummary() + w.k.Dump(nil) })
-		vsched.SetCap(w.v.SrCh(), p.Ksr)
-		vsched.SetCap(w.g.VPerio().VEvtCh(), p.Kevt)
+		if p.Kevt > 0 {
+			vsched.SetKeyFn(func() string { return w.v.Summary() + w.g.VPerio().VSummary() + w.k.Dump(nil) })
+		}
+		if p.Ksr > 0 {
+			vsched.SetCap(w.v.SrCh(), p.Ksr)
+		}
+		if p.Kevt > 0 {
+			vsched.SetCap(w.g.VPerio().VEvtCh(), p.Kevt) // 0: the real capacity (true-scale instance)
+		}
 		// the concurrent phase
 		switch p.Bulk {
 		case "reassoc":
@@ -139,34 +148,35 @@ func c18Check(x *vsched.Exec, r vsched.Result) []vsched.Finding {
 	if w == nil || r.Deadlock != "" || len(r.Panics) > 0 || r.Truncated {
 		return nil // deadlocks and panics are reported by the explorer itself
 	}
-	var fs []vsched.Finding
-	rep := w.replies()
-	want, _ := x.V["expectA"].(int)
-	got := 0
-	for _, m := range rep[0] {
-		if m.Type == smf.MAssocRsp || m.Type == smf.MDelRsp || m.Type == smf.MEstRsp {
-			got++
+	return w.settle(func(rep [3][]*smf.Msg) []vsched.Finding {
+		var fs []vsched.Finding
+		want, _ := x.V["expectA"].(int)
+		got := 0
+		for _, m := range rep[0] {
+			if m.Type == smf.MAssocRsp || m.Type == smf.MDelRsp || m.Type == smf.MEstRsp {
+				got++
+			}
 		}
-	}
-	if got != want {
-		fs = append(fs, vsched.Finding{Sig: "request-unanswered:peer-A", What: fmt.Sprintf("peer A sent %d requests in the bulk phase and received %d responses although nothing is blocked any more", want, got)})
-	}
-	hb := 0
-	for _, m := range rep[1] {
-		if m.Type == smf.MHeartbeatRsp {
-			hb++
+		if got != want {
+			fs = append(fs, vsched.Finding{Sig: "request-unanswered:peer-A", What: fmt.Sprintf("peer A sent %d requests in the bulk phase and received %d responses although nothing is blocked any more", want, got)})
 		}
-	}
-	if want, _ := x.V["hb"].(bool); want && hb != 1 {
-		fs = append(fs, vsched.Finding{Sig: "request-unanswered:heartbeat", What: fmt.Sprintf("peer B's Heartbeat Request got %d responses", hb)})
-	}
-	if q, ok := x.V["q"].(int); ok {
-		if n := w.v.VQLen(x.V["qseid"].(uint64), 1); n != q {
-			fs = append(fs, vsched.Finding{Sig: "buffer-queue-length", What: fmt.Sprintf("after a burst larger than the buffer queue it holds %d packets, want %d (the capacity)", n, q)})
+		hb := 0
+		for _, m := range rep[1] {
+			if m.Type == smf.MHeartbeatRsp {
+				hb++
+			}
 		}
-	}
-	x.V["outcome"] = fmt.Sprintf("A=%d B=%d reports=%d", got, hb, countType(rep[0], smf.MReportReq))
-	return fs
+		if want, _ := x.V["hb"].(bool); want && hb != 1 {
+			fs = append(fs, vsched.Finding{Sig: "request-unanswered:heartbeat", What: fmt.Sprintf("peer B's Heartbeat Request got %d responses", hb)})
+		}
+		if q, ok := x.V["q"].(int); ok {
+			if n := w.v.VQLen(x.V["qseid"].(uint64), 1); n != q {
+				fs = append(fs, vsched.Finding{Sig: "buffer-queue-length", What: fmt.Sprintf("after a burst larger than the buffer queue it holds %d packets, want %d (the capacity)", n, q)})
+			}
+		}
+		x.V["outcome"] = fmt.Sprintf("A=%d B=%d reports=%d", got, hb, countType(rep[0], smf.MReportReq))
+		return fs
+	})
 }
 
 func countType(ms []*smf.Msg, t uint8) int {
